@@ -23,6 +23,16 @@ Proved:
   after which the repaired configuration does not build ("processor already running") although no run
   exists, a run end releases nothing, and the monitor `noLeakAfterFailedBuild` fails.
 
+The open phase of `Start` (arch-v2 `runPipeline`: `sink.Open`, every `worker.Open`, with the rollback
+performed on a failure; v1: every node opens inside its own `Run`):
+* `C11_open_failure_releases_opened` — what a failed open phase releases: only processors whose `Open`
+  had succeeded, and the WHOLE shared sink when the failure is in a worker; no run becomes live;
+* `C11_v1_start_releases_all` — v1 releases everything whichever `Open` fails;
+* `C11_failed_open_leaks_unopened_processor_reservations_counterexample` — arch-v2 keeps the
+  reservations of the processors it never opened and of the one whose `Open` failed (known finding
+  `failed-open-leaks-unopened-processor-reservations-v2`); NOT holding: "after a failed `Start` the
+  reservations are those before it" (`(step .v2 s .start).2 = .started .openFailed h' → h' = s.held`).
+
 NOT holding of the current code (the full-strength statement; it is the goal of the proposed fix —
 release the runnables already made on the error exits of the builders):
 
@@ -45,15 +55,15 @@ theorem reservedBy_v2 (cfg : PipeCfg) : reservedBy .v2 cfg = allProcIds cfg := r
 /-- A successful build attempt reserves exactly the processors of the configuration: the new
 reservation state is those processors on top of what was held, they are pairwise distinct, and none
 of them was reserved before. -/
-theorem C11_build_ok_reserves_exactly_its_processors (eng : Eng) (held : List Nat) (cfg : PipeCfg) (h : List Nat)
-    (hok : attempt eng held cfg = (.ok, h)) :
+theorem C11_build_ok_reserves_exactly_its_processors (eng : Eng) (openC held : List Nat) (cfg : PipeCfg) (h : List Nat)
+    (hok : attempt eng openC held cfg = (.ok, h)) :
     h = (reservedBy eng cfg).reverse ++ held ∧ (reservedBy eng cfg).Nodup ∧
       (∀ x ∈ reservedBy eng cfg, x ∉ held) ∧ added held h = (reservedBy eng cfg).reverse := by
   have key : h = (reservedBy eng cfg).reverse ++ held ∧ (reservedBy eng cfg).Nodup ∧ (∀ x ∈ reservedBy eng cfg, x ∉ held) := by
     cases eng with
     | v2 =>
       simp only [attempt, attemptV2] at hok
-      rcases hs : reserveConns .source held cfg.conns with ⟨eo, h1⟩
+      rcases hs : reserveConns .source openC held cfg.conns with ⟨eo, h1⟩
       rw [hs] at hok
       cases eo with
       | some e => simp at hok
@@ -61,7 +71,7 @@ theorem C11_build_ok_reserves_exactly_its_processors (eng : Eng) (held : List Na
         simp only at hok
         split at hok
         · simp at hok
-        · rcases hd : reserveConns .dest h1 cfg.conns with ⟨eo, h2⟩
+        · rcases hd : reserveConns .dest openC h1 cfg.conns with ⟨eo, h2⟩
           rw [hd] at hok
           cases eo with
           | some e => simp at hok
@@ -80,8 +90,8 @@ theorem C11_build_ok_reserves_exactly_its_processors (eng : Eng) (held : List Na
                   | ok t => rw [hb] at hok; simp only [Prod.mk.injEq] at hok; exact hok.2
                   | error e => rw [hb] at hok; simp at hok
                 subst e3
-                obtain ⟨s1, s2, s3⟩ := reserveConns_ok .source (by decide) cfg.conns held h1 hs
-                obtain ⟨d1, d2, d3⟩ := reserveConns_ok .dest (by decide) cfg.conns h1 h2 hd
+                obtain ⟨s1, s2, s3⟩ := reserveConns_ok .source (by decide) openC cfg.conns held h1 hs
+                obtain ⟨d1, d2, d3⟩ := reserveConns_ok .dest (by decide) openC cfg.conns h1 h2 hd
                 obtain ⟨p1, p2, p3⟩ := reserve_ok cfg.procs h2 h3 hp
                 rw [kindProcIds_source] at s1 s2 s3
                 rw [kindProcIds_dest] at d1 d2 d3
@@ -100,7 +110,7 @@ theorem C11_build_ok_reserves_exactly_its_processors (eng : Eng) (held : List Na
                   · exact p3 x hx (by rw [d1, s1]; exact List.mem_append_right _ (List.mem_append_right _ hm))
     | v1 =>
       simp only [attempt, attemptV1] at hok
-      rcases hs : reserveConns .source held cfg.conns with ⟨eo, h1⟩
+      rcases hs : reserveConns .source openC held cfg.conns with ⟨eo, h1⟩
       rw [hs] at hok
       cases eo with
       | some e => simp at hok
@@ -114,7 +124,7 @@ theorem C11_build_ok_reserves_exactly_its_processors (eng : Eng) (held : List Na
           | some e => simp at hok
           | none =>
             simp only at hok
-            rcases hd : reserveConns .dest h2 cfg.conns with ⟨eo, h3⟩
+            rcases hd : reserveConns .dest openC h2 cfg.conns with ⟨eo, h3⟩
             rw [hd] at hok
             cases eo with
             | some e => simp at hok
@@ -124,9 +134,9 @@ theorem C11_build_ok_reserves_exactly_its_processors (eng : Eng) (held : List Na
               · simp at hok
               · simp only [Prod.mk.injEq, true_and] at hok
                 subst hok
-                obtain ⟨s1, s2, s3⟩ := reserveConns_ok .source (by decide) cfg.conns held h1 hs
+                obtain ⟨s1, s2, s3⟩ := reserveConns_ok .source (by decide) openC cfg.conns held h1 hs
                 obtain ⟨p1, p2, p3⟩ := reserve_ok cfg.procs h1 h2 hp
-                obtain ⟨d1, d2, d3⟩ := reserveConns_ok .dest (by decide) cfg.conns h2 h3 hd
+                obtain ⟨d1, d2, d3⟩ := reserveConns_ok .dest (by decide) openC cfg.conns h2 h3 hd
                 rw [kindProcIds_source] at s1 s2 s3
                 rw [kindProcIds_dest] at d1 d2 d3
                 refine ⟨by rw [d1, p1, s1]; simp [reservedBy], ?_, ?_⟩
@@ -154,64 +164,101 @@ reservation): exactly the processors reserved by those runs are released, no run
 when every reservation belonged to a live run, NOTHING stays reserved. -/
 theorem C11_teardown_releases_all (eng : Eng) (s : St) :
     (∀ x, x ∈ (step eng s .teardown).1.held ↔ x ∈ s.held ∧ x ∉ s.live.flatten) ∧
-    (step eng s .teardown).1.live = [] ∧
+    (step eng s .teardown).1.live = [] ∧ (step eng s .teardown).1.openC = [] ∧
     (AllLive s → (step eng s .teardown).1.held = []) := by
-  refine ⟨fun x => by simp [step, release], rfl, fun hall => ?_⟩
+  refine ⟨fun x => by simp [step, release], rfl, rfl, fun hall => ?_⟩
   simp only [step, release]
   exact List.filter_eq_nil_iff.mpr (fun x hx => by simpa using hall x hx)
 
+/-- an observation that is not a failure of a build attempt or of a `Start` -/
+def Good : Obs → Prop
+  | .built o _ => o = .ok
+  | .started o _ => o = .ok ∨ o = .ran ∨ o = .plRunning
+  | _ => True
+
+theorem allLive_of_ok {eng : Eng} {s : St} {h : List Nat} (hs : AllLive s)
+    (ha : attempt eng s.openC s.held s.cfg = (.ok, h)) :
+    ∀ x ∈ h, x ∈ (s.live ++ [added s.held h]).flatten := by
+  obtain ⟨h1, _, _, h4⟩ := C11_build_ok_reserves_exactly_its_processors eng s.openC s.held s.cfg h ha
+  intro x hx
+  simp only [List.flatten_append, List.flatten_cons, List.flatten_nil, List.append_nil, List.mem_append]
+  rw [h1] at hx
+  rcases List.mem_append.mp hx with hx | hx
+  · right; rw [h4]; exact hx
+  · left; exact hs x hx
+
 theorem allLive_step_ok (eng : Eng) (s : St) (e : Step) (hs : AllLive s)
-    (hok : ∀ o h, (step eng s e).2 = .built o h → o = .ok) : AllLive (step eng s e).1 := by
+    (hok : Good (step eng s e).2) : AllLive (step eng s e).1 := by
   cases e with
   | build =>
-    rcases ha : attempt eng s.held s.cfg with ⟨o, h⟩
-    have ho : o = .ok := hok o h (by simp [step, ha])
+    rcases ha : attempt eng s.openC s.held s.cfg with ⟨o, h⟩
+    have ho : o = .ok := by simpa [step, ha, Good] using hok
     subst ho
-    obtain ⟨h1, _, _, h4⟩ := C11_build_ok_reserves_exactly_its_processors eng s.held s.cfg h ha
     intro x hx
     simp only [step, ha, if_true] at hx ⊢
-    simp only [List.flatten_append, List.flatten_cons, List.flatten_nil, List.append_nil, List.mem_append]
-    rw [h1] at hx
-    rcases List.mem_append.mp hx with hx | hx
-    · right; rw [h4]; exact hx
-    · left; exact hs x hx
+    exact allLive_of_ok hs ha x hx
   | teardown =>
     intro x hx
-    rw [(C11_teardown_releases_all eng s).2.2 hs] at hx
+    rw [(C11_teardown_releases_all eng s).2.2.2 hs] at hx
     cases hx
+  | start =>
+    cases eng with
+    | v1 =>
+      rcases ha : attempt .v1 s.openC s.held s.cfg with ⟨o, h⟩
+      cases o with
+      | ok => simp only [step, ha]; exact hs
+      | err e => simp [step, ha, Good] at hok
+    | v2 =>
+      by_cases hst : s.started = true
+      · simp only [step, hst, if_true]; exact hs
+      · rcases ha : attempt .v2 s.openC s.held s.cfg with ⟨o, h⟩
+        cases o with
+        | err e => simp [step, hst, ha, Good] at hok
+        | ok =>
+          cases hop : openPhaseV2 s.cfg s.failP s.failC with
+          | some rel => simp [step, hst, ha, hop, Good] at hok
+          | none =>
+            intro x hx
+            simp only [step, hst, ha, hop, Bool.false_eq_true, if_false] at hx ⊢
+            exact allLive_of_ok hs ha x hx
   | mk id => exact hs
   | rmp id => exact hs
   | rmc id => exact hs
   | addc k id => exact hs
+  | failp id => exact hs
+  | failc id => exact hs
+  | failclear => exact hs
 
-/-- Over any history of build attempts, run ends and configuration edits in which NO build attempt
-failed, every reservation belongs to a live run at every point — so every run end leaves nothing
-reserved. (A failed attempt is the only way to break this: see the counterexample.) -/
+/-- Over any history of build attempts, `Start`s, run ends, injected `Open` failures and
+configuration edits in which NO build attempt and NO `Start` failed, every reservation belongs to a
+live run at every point — so every run end leaves nothing reserved. (A failed build or a failed open
+phase is the only way to break this: see the counterexamples.) -/
 theorem C11_no_failed_build_no_leak (eng : Eng) (steps : List Step) : ∀ (s : St), AllLive s →
-    (∀ t ∈ run eng s steps, ∀ o h, t.2.2.2 = .built o h → o = .ok) →
+    (∀ t ∈ run eng s steps, Good t.2.2.2) →
     ∀ t ∈ run eng s steps, AllLive t.2.2.1 ∧ (t.2.1 = .teardown → t.2.2.1.held = []) := by
   induction steps with
   | nil => intro s _ _ t ht; simp [run] at ht
   | cons e es ih =>
     intro s hs hok t ht
     simp only [run] at ht hok
-    have hstep : AllLive (step eng s e).1 :=
-      allLive_step_ok eng s e hs (fun o h heq => hok _ (List.mem_cons_self ..) o h heq)
+    have hstep : AllLive (step eng s e).1 := allLive_step_ok eng s e hs (hok _ (List.mem_cons_self ..))
     rcases List.mem_cons.mp ht with rfl | ht
     · refine ⟨hstep, fun he => ?_⟩
       simp only at he
       subst he
-      exact (C11_teardown_releases_all eng s).2.2 hs
+      exact (C11_teardown_releases_all eng s).2.2.2 hs
     · exact ih (step eng s e).1 hstep (fun t' ht' => hok t' (List.mem_cons_of_mem _ ht')) t ht
 
 /-- After a run end that left nothing reserved the same configuration builds again iff it builds from
-scratch: the result of the attempt is the result with no reservation in place. -/
+scratch: the result of the attempt is the result with nothing reserved and no connector open. -/
 theorem C11_rebuild_after_teardown (eng : Eng) (s : St) (hs : AllLive s) :
-    attempt eng (step eng s .teardown).1.held (step eng s .teardown).1.cfg = attempt eng [] s.cfg := by
-  rw [(C11_teardown_releases_all eng s).2.2 hs]
+    attempt eng (step eng s .teardown).1.openC (step eng s .teardown).1.held (step eng s .teardown).1.cfg =
+      attempt eng [] [] s.cfg := by
+  rw [(C11_teardown_releases_all eng s).2.2.2 hs]
   rfl
 
-theorem reserveConns_suffix (k : ConnKind) (cs : List ConnCfg) : ∀ held, ∃ a, (reserveConns k held cs).2 = a ++ held := by
+theorem reserveConns_suffix (k : ConnKind) (openC : List Nat) (cs : List ConnCfg) :
+    ∀ held, ∃ a, (reserveConns k openC held cs).2 = a ++ held := by
   induction cs with
   | nil => intro held; exact ⟨[], rfl⟩
   | cons c cs ih =>
@@ -222,31 +269,35 @@ theorem reserveConns_suffix (k : ConnKind) (cs : List ConnCfg) : ∀ held, ∃ a
     · rw [if_neg hm]
       by_cases hk : c.kind = k
       · rw [if_neg (fun h : c.kind ≠ k => h hk)]
-        obtain ⟨a, ha⟩ := reserve_suffix c.procs held
-        rcases hr : reserve held c.procs with ⟨eo, h1⟩
-        rw [hr] at ha
-        simp only at ha
-        cases eo with
-        | some e => exact ⟨a, ha⟩
-        | none =>
-          obtain ⟨b, hb⟩ := ih h1
-          refine ⟨b ++ a, ?_⟩
-          show (reserveConns k h1 cs).2 = _
-          rw [hb, ha]; simp
+        cases ho : openC.contains c.id with
+        | true => exact ⟨[], by simp⟩
+        | false =>
+          simp only [Bool.false_eq_true, if_false]
+          obtain ⟨a, ha⟩ := reserve_suffix c.procs held
+          rcases hr : reserve held c.procs with ⟨eo, h1⟩
+          rw [hr] at ha
+          simp only at ha
+          cases eo with
+          | some e => exact ⟨a, ha⟩
+          | none =>
+            obtain ⟨b, hb⟩ := ih h1
+            refine ⟨b ++ a, ?_⟩
+            show (reserveConns k openC h1 cs).2 = _
+            rw [hb, ha]; simp
       · rw [if_pos hk]
         exact ih held
 
 /-- What ANY attempt (failed or not) does to the reservations: it only adds, in front of what was
 held. In particular a failed attempt never releases anything it or an earlier attempt reserved. -/
-theorem C11_failed_build_adds_a_prefix (eng : Eng) (held : List Nat) (cfg : PipeCfg) :
-    ∃ a, (attempt eng held cfg).2 = a ++ held := by
+theorem C11_failed_build_adds_a_prefix (eng : Eng) (openC held : List Nat) (cfg : PipeCfg) :
+    ∃ a, (attempt eng openC held cfg).2 = a ++ held := by
   have hr := fun h ps => reserve_suffix ps h
-  have hc := fun k h cs => reserveConns_suffix k cs h
+  have hc := fun k h cs => reserveConns_suffix k openC cs h
   cases eng with
   | v2 =>
     simp only [attempt, attemptV2]
     obtain ⟨a1, e1⟩ := hc .source held cfg.conns
-    rcases hs : reserveConns .source held cfg.conns with ⟨eo, h1⟩
+    rcases hs : reserveConns .source openC held cfg.conns with ⟨eo, h1⟩
     rw [hs] at e1; simp only at e1
     cases eo with
     | some e => exact ⟨a1, e1⟩
@@ -255,7 +306,7 @@ theorem C11_failed_build_adds_a_prefix (eng : Eng) (held : List Nat) (cfg : Pipe
       split
       · exact ⟨a1, e1⟩
       · obtain ⟨a2, e2⟩ := hc .dest h1 cfg.conns
-        rcases hd : reserveConns .dest h1 cfg.conns with ⟨eo, h2⟩
+        rcases hd : reserveConns .dest openC h1 cfg.conns with ⟨eo, h2⟩
         rw [hd] at e2; simp only at e2
         cases eo with
         | some e => exact ⟨a2 ++ a1, by simp only; rw [e2, e1]; simp⟩
@@ -274,7 +325,7 @@ theorem C11_failed_build_adds_a_prefix (eng : Eng) (held : List Nat) (cfg : Pipe
   | v1 =>
     simp only [attempt, attemptV1]
     obtain ⟨a1, e1⟩ := hc .source held cfg.conns
-    rcases hs : reserveConns .source held cfg.conns with ⟨eo, h1⟩
+    rcases hs : reserveConns .source openC held cfg.conns with ⟨eo, h1⟩
     rw [hs] at e1; simp only at e1
     cases eo with
     | some e => exact ⟨a1, e1⟩
@@ -290,7 +341,7 @@ theorem C11_failed_build_adds_a_prefix (eng : Eng) (held : List Nat) (cfg : Pipe
         | none =>
           simp only
           obtain ⟨a3, e3⟩ := hc .dest h2 cfg.conns
-          rcases hd : reserveConns .dest h2 cfg.conns with ⟨eo, h3⟩
+          rcases hd : reserveConns .dest openC h2 cfg.conns with ⟨eo, h3⟩
           rw [hd] at e3; simp only at e3
           cases eo with
           | some e => exact ⟨a3 ++ a2 ++ a1, by simp only; rw [e3, e2, e1]; simp⟩
@@ -298,7 +349,156 @@ theorem C11_failed_build_adds_a_prefix (eng : Eng) (held : List Nat) (cfg : Pipe
             simp only
             split <;> exact ⟨a3 ++ a2 ++ a1, by simp only; rw [e3, e2, e1]; simp⟩
 
-/-! ## the counterexample: a failed build leaks its reservations (both engines) -/
+/-! ## the open phase of `Start` (arch-v2 `runPipeline`: `sink.Open`, every `worker.Open`, rollback) -/
+
+theorem openSeq_procs (failP failC : List Nat) (ts : List OpenTask) : ∀ (oc : List Nat),
+    (∀ x ∈ (openSeq failP failC oc ts).1, x ∈ procsOf ts ∧ x ∉ failP) := by
+  induction ts with
+  | nil => intro oc x hx; simp [openSeq] at hx
+  | cons t ts ih =>
+    intro oc x hx
+    rw [openSeq] at hx
+    by_cases hf : taskFails failP failC oc t = true
+    · simp [hf] at hx
+    · simp only [hf, Bool.false_eq_true, if_false] at hx
+      rcases hr : openSeq failP failC (if t.1 then oc else t.2 :: oc) ts with ⟨ps, oc', f⟩
+      rw [hr] at hx
+      simp only [List.mem_append] at hx
+      obtain ⟨b, id⟩ := t
+      rcases hx with hx | hx
+      · cases b with
+        | false => simp at hx
+        | true =>
+          simp only [if_true, List.mem_singleton] at hx
+          subst hx
+          refine ⟨by simp [procsOf], ?_⟩
+          simpa [taskFails] using hf
+      · have := ih (if b then oc else id :: oc) x (by rw [hr]; exact hx)
+        refine ⟨?_, this.2⟩
+        cases b with
+        | false => simp [procsOf] at this ⊢; exact this.1
+        | true => simp [procsOf] at this ⊢; exact Or.inr this.1
+
+theorem workersOpen_released (failP failC sinkProcs : List Nat) (cs : List ConnCfg) :
+    ∀ (oc closed rel : List Nat), workersOpen failP failC sinkProcs oc closed cs = some rel →
+      (∀ x ∈ sinkProcs, x ∈ rel) ∧ (∀ x ∈ closed, x ∈ rel) ∧
+      (∀ x ∈ rel, x ∈ sinkProcs ∨ x ∈ closed ∨ (x ∉ failP ∧ ∃ c ∈ cs, x ∈ procsOf (workerTasks c))) := by
+  induction cs with
+  | nil => intro oc closed rel h; simp [workersOpen] at h
+  | cons c cs ih =>
+    intro oc closed rel h
+    rw [workersOpen] at h
+    rcases hr : openSeq failP failC oc (workerTasks c) with ⟨ps, oc', f⟩
+    have hps := openSeq_procs failP failC (workerTasks c) oc
+    rw [hr] at h hps
+    simp only at hps
+    cases f with
+    | true =>
+      simp only [Option.some.injEq] at h
+      subst h
+      refine ⟨fun x hx => by simp [hx], fun x hx => by simp [hx], fun x hx => ?_⟩
+      simp only [List.mem_append] at hx
+      rcases hx with (hx | hx) | hx
+      · exact Or.inr (Or.inr ⟨(hps x hx).2, c, List.mem_cons_self .., (hps x hx).1⟩)
+      · exact Or.inr (Or.inl hx)
+      · exact Or.inl hx
+    | false =>
+      simp only at h
+      obtain ⟨h1, h2, h3⟩ := ih oc' (closed ++ ps) rel h
+      refine ⟨h1, fun x hx => h2 x (List.mem_append_left _ hx), fun x hx => ?_⟩
+      rcases h3 x hx with h | h | ⟨hnf, d, hd, hx'⟩
+      · exact Or.inl h
+      · rcases List.mem_append.mp h with h | h
+        · exact Or.inr (Or.inl h)
+        · exact Or.inr (Or.inr ⟨(hps x h).2, c, List.mem_cons_self .., (hps x h).1⟩)
+      · exact Or.inr (Or.inr ⟨hnf, d, List.mem_cons_of_mem _ hd, hx'⟩)
+
+/-- **What a failed open phase DOES release (arch-v2).** When `Start`'s open phase fails, the
+reservations afterwards are those of the successful build minus `released`, where `released` holds
+only processors whose `Open` had succeeded (none of the failing ones); and when the failure is in a
+worker (the sink had opened completely), EVERY processor of the shared sink is among them
+(`rp.sink.Close` closes every shared task). No run becomes live, no connector stays open. -/
+theorem C11_open_failure_releases_opened (s : St) (h' : List Nat)
+    (hstep : (step .v2 s .start).2 = .started .openFailed h') :
+    ∃ h released, attempt .v2 s.openC s.held s.cfg = (.ok, h) ∧
+      openPhaseV2 s.cfg s.failP s.failC = some released ∧
+      (step .v2 s .start).1.held = h' ∧ (∀ x, x ∈ h' ↔ x ∈ h ∧ x ∉ released) ∧
+      (∀ x ∈ released, x ∉ s.failP) ∧
+      ((openSeq s.failP s.failC [] (sinkTasks s.cfg)).2.2 = false → ∀ x ∈ procsOf (sinkTasks s.cfg), x ∈ released) ∧
+      (step .v2 s .start).1.live = s.live ∧ (step .v2 s .start).1.started = s.started ∧
+      (step .v2 s .start).1.openC = s.openC := by
+  by_cases hst : s.started = true
+  · simp [step, hst] at hstep
+  · rcases ha : attempt .v2 s.openC s.held s.cfg with ⟨o, h⟩
+    cases o with
+    | err e => simp [step, hst, ha] at hstep
+    | ok =>
+      cases hop : openPhaseV2 s.cfg s.failP s.failC with
+      | none => simp [step, hst, ha, hop] at hstep
+      | some rel =>
+        have hs : step .v2 s .start =
+            ({ s with held := h.filter fun x => !rel.contains x }, .started .openFailed (h.filter fun x => !rel.contains x)) := by
+          simp only [step, hst, ha, hop, Bool.false_eq_true, if_false]
+        rw [hs] at hstep ⊢
+        have hh : (h.filter fun x => !rel.contains x) = h' := by
+          simp only [Obs.started.injEq, true_and] at hstep; exact hstep
+        refine ⟨h, rel, rfl, rfl, hh, fun x => by rw [← hh]; simp, ?_, ?_, rfl, rfl, rfl⟩
+        · intro x hx
+          rw [openPhaseV2] at hop
+          rcases hr : openSeq s.failP s.failC [] (sinkTasks s.cfg) with ⟨ps, oc, f⟩
+          have hps := openSeq_procs s.failP s.failC (sinkTasks s.cfg) []
+          rw [hr] at hop hps
+          cases f with
+          | true =>
+            simp only [Option.some.injEq] at hop
+            subst hop
+            exact (hps x hx).2
+          | false =>
+            simp only at hop
+            rcases (workersOpen_released _ _ _ _ _ _ _ hop).2.2 x hx with h1 | h1 | ⟨h1, _⟩
+            · -- a processor of the sink, all of which opened
+              exact sink_opened_not_failing s.failP s.failC (sinkTasks s.cfg) [] (by rw [hr]) x h1
+            · cases h1
+            · exact h1
+        · intro hf x hx
+          rw [openPhaseV2] at hop
+          rcases hr : openSeq s.failP s.failC [] (sinkTasks s.cfg) with ⟨ps, oc, f⟩
+          rw [hr] at hop hf
+          simp only at hf
+          subst hf
+          simp only at hop
+          exact (workersOpen_released _ _ _ _ _ _ _ hop).1 x hx
+where
+  sink_opened_not_failing (failP failC : List Nat) (ts : List OpenTask) : ∀ (oc : List Nat),
+      (openSeq failP failC oc ts).2.2 = false → ∀ x ∈ procsOf ts, x ∉ failP := by
+    induction ts with
+    | nil => intro oc _ x hx; simp [procsOf] at hx
+    | cons t ts ih =>
+      intro oc hf x hx
+      rw [openSeq] at hf
+      by_cases hfail : taskFails failP failC oc t = true
+      · simp [hfail] at hf
+      · simp only [hfail, Bool.false_eq_true, if_false] at hf
+        rcases hr : openSeq failP failC (if t.1 then oc else t.2 :: oc) ts with ⟨ps, oc', f⟩
+        rw [hr] at hf
+        simp only at hf
+        obtain ⟨b, id⟩ := t
+        cases b with
+        | false => exact ih _ (by rw [hr]; exact hf) x (by simpa [procsOf] using hx)
+        | true =>
+          simp only [procsOf, List.filter_cons, if_true, List.map_cons, List.mem_cons] at hx
+          rcases hx with rfl | hx
+          · simpa [taskFails] using hfail
+          · exact ih _ (by rw [hr]; exact hf) x (by simpa [procsOf] using hx)
+
+/-- v1: a `Start` whose build succeeds leaves the reservations exactly as they were once its run has
+ended, whichever `Open` failed: every node is run, and every `ProcessorNode.Run` tears its processor
+down on every exit (the teardown is deferred before `Open`). -/
+theorem C11_v1_start_releases_all (s : St) (h : List Nat) (hb : attempt .v1 s.openC s.held s.cfg = (.ok, h)) :
+    step .v1 s .start = (s, .started .ran s.held) := by
+  simp [step, hb]
+
+/-! ## the counterexamples: a failed build / a failed open phase leaks reservations -/
 namespace ExLeak
 
 /-- source 1 with processor 2, destination 6; the pipeline lists a processor 7 that does not exist -/
@@ -320,27 +520,74 @@ releases nothing (no run holds the reservation); the refusal is permanent. The m
 theorem C11_failed_build_leaks_reservation_counterexample :
     (∀ eng : Eng,
       ExLeak.obs eng = [.built (.err .processor) [2], .none, .built (.err .running) [2], .torn [2], .built (.err .running) [2]] ∧
-      (attempt eng [] (editCfg ExLeak.cfg (.rmp 7))).1 = .ok ∧
+      (attempt eng [] [] (editCfg ExLeak.cfg (.rmp 7))).1 = .ok ∧
       noLeakAfterFailedBuild eng ExLeak.cfg ExLeak.history = .failedBuildKeepsReservations 0 [2]) ∧
     -- hence the full-strength statement is false:
     ¬ (∀ (eng : Eng) (held : List Nat) (cfg : PipeCfg) (e : BuildErr) (h : List Nat),
-        attempt eng held cfg = (.err e, h) → h = held) := by
+        attempt eng [] held cfg = (.err e, h) → h = held) := by
   refine ⟨fun eng => by cases eng <;> decide, fun hall => ?_⟩
   have := hall .v2 [] ExLeak.cfg .processor [2] (by decide)
   cases this
+
+namespace ExOpenLeak
+
+/-- sources 1 (processor 2) and 7 (processor 8), shared processor 3, destination 6 behind its processor 5 -/
+def cfg : PipeCfg :=
+  { conns := [⟨.source, 1, [(2, true)]⟩, ⟨.source, 7, [(8, true)]⟩, ⟨.dest, 6, [(5, true)]⟩], procs := [(3, true)] }
+
+/-- processor 5's `Open` fails on the first Start; the fault is lifted; Start again; a run end; Start again -/
+def sinkFault : List Step := [.failp 5, .start, .failclear, .start, .teardown, .start]
+/-- the same with the SECOND source's processor 8 failing (the sink and the first worker had opened) -/
+def workerFault : List Step := [.failp 8, .start, .failclear, .start, .teardown, .start]
+
+def obs (eng : Eng) (h : List Step) : List Obs := ((run eng { cfg } h).map (·.2.2.2)).filter (· ≠ .none)
+
+end ExOpenLeak
+
+/-- **Counterexample (arch-v2 only).** A `Start` whose open phase fails keeps the reservations of the
+processors it never got to open — and of the one whose `Open` failed:
+* processor 5 (destination 6's) fails in `sink.Open`: the rollback closes processor 3 (opened before
+  it); 5 itself and the processors 2 and 8 of the two workers (never opened, never closed) stay
+  reserved;
+* processor 8 (second source's) fails in the second `worker.Open`: the first worker and the sink are
+  closed (2, 3, 5 released); 8 stays reserved.
+Every later Start is refused "processor already running" (and, being a failed build, reserves more on
+the way), a run end releases nothing. The monitor reports the leak at the failed Start.
+v1 on the same histories releases everything: the monitor holds. -/
+theorem C11_failed_open_leaks_unopened_processor_reservations_counterexample :
+    ExOpenLeak.obs .v2 ExOpenLeak.sinkFault =
+      [.started .openFailed [5, 8, 2], .started (.buildErr .running) [5, 8, 2], .torn [5, 8, 2],
+       .started (.buildErr .running) [5, 8, 2]] ∧
+    noLeakAfterFailedBuild .v2 ExOpenLeak.cfg ExOpenLeak.sinkFault = .failedOpenKeepsReservations 1 [5, 8, 2] ∧
+    ExOpenLeak.obs .v2 ExOpenLeak.workerFault =
+      [.started .openFailed [8], .started (.buildErr .running) [2, 8], .torn [2, 8], .started (.buildErr .running) [2, 8]] ∧
+    noLeakAfterFailedBuild .v2 ExOpenLeak.cfg ExOpenLeak.workerFault = .failedOpenKeepsReservations 1 [8] ∧
+    (attempt .v2 [] [] ExOpenLeak.cfg).1 = .ok ∧
+    ExOpenLeak.obs .v1 ExOpenLeak.sinkFault = [.started .ran [], .started .ran [], .torn [], .started .ran []] ∧
+    noLeakAfterFailedBuild .v1 ExOpenLeak.cfg ExOpenLeak.sinkFault = .ok ∧
+    noLeakAfterFailedBuild .v1 ExOpenLeak.cfg ExOpenLeak.workerFault = .ok := by decide
 
 /-! ## non-vacuity of the positive theorems -/
 namespace ExOk
 def cfg : PipeCfg :=
   { conns := [⟨.source, 1, [(2, true)]⟩, ⟨.dest, 6, [(5, true)]⟩], procs := [(3, true)] }
-example : attempt .v2 [] cfg = (.ok, [3, 5, 2]) := by decide
-example : attempt .v1 [] cfg = (.ok, [5, 3, 2]) := by decide
+example : attempt .v2 [] [] cfg = (.ok, [3, 5, 2]) := by decide
+example : attempt .v1 [] [] cfg = (.ok, [5, 3, 2]) := by decide
 example : reservedBy .v2 cfg = [2, 5, 3] ∧ reservedBy .v1 cfg = [2, 3, 5] := by decide
 /-- run, end, run again, end: nothing is ever left reserved and the monitor holds -/
 example : (run .v2 { cfg } [.build, .teardown, .build, .teardown]).map (·.2.2.2) =
     [.built .ok [3, 5, 2], .torn [], .built .ok [3, 5, 2], .torn []] := by decide
 example : noLeakAfterFailedBuild .v2 cfg [.build, .teardown, .build, .teardown] = .ok := by decide
 example : noLeakAfterFailedBuild .v1 cfg [.build, .teardown, .build, .teardown] = .ok := by decide
+/-- the same through `Start`; a second Start while the run is live is refused without any effect; a bare
+build during the live run stops at the connector guard -/
+example : (run .v2 { cfg } [.start, .start, .build, .teardown, .start, .teardown]).map (·.2.2.2) =
+    [.started .ok [3, 5, 2], .started .plRunning [3, 5, 2], .built (.err .connRunning) [3, 5, 2], .torn [],
+     .started .ok [3, 5, 2], .torn []] := by decide
+example : noLeakAfterFailedBuild .v2 cfg [.start, .start, .build, .teardown, .start, .teardown] = .ok := by decide
+/-- an open failure that hits the very first shared task leaks everything the build reserved; one that hits
+the first worker's source releases the whole sink -/
+example : openPhaseV2 cfg [3] [] = some [] ∧ openPhaseV2 cfg [] [1] = some [3, 5] ∧ openPhaseV2 cfg [] [] = none := by decide
 /-- a failed attempt that had reserved nothing yet is harmless (the unknown connector comes first) -/
 example : noLeakAfterFailedBuild .v2 { cfg with conns := ⟨.missing, 9, []⟩ :: cfg.conns } [.build, .rmc 9, .build, .teardown] = .ok := by
   decide
